@@ -1,8 +1,9 @@
+\* baseline, copy of a two-image index (9 goroutines): run with -simulate, BFS does not finish
 CONSTANTS
  Scenarios <- IxCopy
  MaxCrash = 1
- MarkerMode = "rewrite"
- MarkerWindow = FALSE
+ MarkerMode = "ifbad"
+ MarkerWindow = TRUE
 INIT Init
 NEXT Next
 INVARIANTS TypeOK NoStuck CrashStateOK ReturnOK RetryOK
